@@ -11,7 +11,8 @@ its first execution and finalized exactly once, whether it completes, fails, is 
 Model: `OPM.Model.CmdMgr` (command manager, UOD instances, tracking marks, Start/Stop/Restart) with the repair
 `fixes/C11-uod-cancel-paths.diff` (`cfg.fixCancel`).  All theorems quantify over every UOD configuration
 (durations, failing iterations, overlap lists) and every sequence of requests, ticks, cancel / force requests,
-Start / Stop / Restart.  The unchanged code violates the property: `asis_*` below.
+Start / Stop / Restart, including UOD requests whose arguments the command's parser rejects.  The unchanged code
+violates the property: `asis_*` below.
 -/
 namespace OPM.C11
 open OPM.CmdMgr
@@ -51,19 +52,33 @@ theorem callbacks_paired (cfg : Cfg) (hfix : cfg.fixCancel = true) (ops : List O
     ∀ o ∈ (reach cfg ops).objs, traceOf (reach cfg ops).events o.serial = expected o :=
   (reach_good cfg hfix ops).core.trace
 
-/-- **Finalized exactly once.** An instance is held in `uod.command_instances` iff it has not been finalized:
-whatever ended it (completion, failure, cancellation by a newer request, a cancel request, Stop / Restart), it
-left the map through `finalize`, and an instance in the map is owned by a request the manager still executes. -/
+/-- **Finalized exactly once.** An instance that has had a callback is held in `uod.command_instances` iff it
+has not been finalized: whatever ended it (completion, failure, cancellation by a newer request, a cancel request,
+Stop / Restart), it left the map through `finalize`; and an instance in the map has been initialised and a
+request the manager still executes (one whose arguments the parser accepts) holds it — so it will be executed,
+cancelled or stopped, never forgotten. -/
 theorem finalized_iff_released (cfg : Cfg) (hfix : cfg.fixCancel = true) (ops : List Op) :
     ∀ o ∈ (reach cfg ops).objs,
       (o.inMap = false → o.finalized = true) ∧
-      (o.inMap = true → o.finalized = false ∧ o.initialized = true ∧ o.iters ≠ 0 ∧
-        ∃ r ∈ (reach cfg ops).executing, r.id = o.owner ∧ r.name = .uod o.name) := by
+      (o.inMap = true → o.finalized = false ∧ o.initialized = true ∧
+        ∃ r ∈ (reach cfg ops).executing, r.name = .uod o.name ∧ r.bad = false) := by
   intro o ho
   have g := reach_good cfg hfix ops
   refine ⟨g.core.dead o ho, fun hm => ?_⟩
-  obtain ⟨a, b, c, r, hr, h1, h2, _⟩ := g.core.live o ho hm
-  exact ⟨a, b, c, r, hr, h1, h2⟩
+  obtain ⟨a, b, r, hr, h1, h2, _⟩ := g.core.live o ho hm
+  exact ⟨a, b, r, hr, h1, h2⟩
+
+/-- **Rejected arguments.** Histories contain requests whose arguments the command's parser rejects
+(`Op.req k true`): such a request fails before `initialize()`, so it causes no callback at all; the instance it
+created stays uninitialised (`stale`) until a later request of that name initialises it or a cancellation
+finalizes it.  Non-vacuity of the theorems above on such a history: a rejected request (error pause), the run is
+resumed, a good request of the same command initialises and executes the instance, Stop finalizes it. -/
+example :
+    let cfg : Cfg := { cmds := [⟨6, none⟩] }
+    let s1 := reach cfg [.user .start, .tick, .req 0 true, .tick]
+    let s2 := reach cfg [.user .start, .tick, .req 0 true, .tick, .pause false, .req 0, .tick, .user .stop, .tick]
+    s1.events = [] ∧ s1.stale = [(0, 1)] ∧ s1.objs = [] ∧ s1.paused = true ∧
+    s2.events = [.init 0, .exec 0 0 0, .final 0] ∧ s2.stale = [] ∧ (liveObjs s2) = [] := by decide +kernel
 
 /-- Every callback belongs to an instance that was created. -/
 theorem callbacks_have_instances (cfg : Cfg) (hfix : cfg.fixCancel = true) (ops : List Op) :
